@@ -199,13 +199,21 @@ CLAIMS["C12"] = dict(
    note="The whole-program theorem deletes alternatives in the generated module (IR); that generating from the grammar with the "
         "alternatives deleted gives the same module up to helper numbering is checked on enumerated inputs, not proved.")
 CLAIMS["C15"] = dict(
-   text="Coq theorems (Props/C15.v): for every token list and state, the token whose end is used for LOCATIONS is the last "
-        "token before the cursor that is not NEWLINE/INDENT/DEDENT/ENDMARKER -- independent of how many tokens were fetched "
-        "beyond the cursor by earlier backtracking, lookahead or cache reuse -- and the start comes from the token at the "
-        "method's entry position. Tie: K-run under the four configurations on grammars whose actions use LOCATIONS at rule "
-        "level, in groups, loops, after lookaheads and in left-recursive rules (values carry the four numbers); direct "
-        "comparison with the matched span for start-rule actions.",
-   design="6/C15", technique="Coq list-level proof of the end-token scan + value-carrying K-run correspondence",
+   text="Coq theorems (Props/C15.v). C15_action_receives_the_span_of_the_match (Proofs/LocRun.v, interpreter level): for "
+        "EVERY IR module, every behaviour of the methods it calls (cache replays, seed growing, tracing, error mode), every "
+        "state a method is entered in (i.e. every history of backtracking, lookahead and cache reuse) and every fuel: when a "
+        "non-loop method that captures the start position returns a truthy value, that value is what the action of one of "
+        "its alternatives produced in an environment where start_lineno/start_col_offset are those of the token at the "
+        "entry position and -- if the alternative uses LOCATIONS and the matched range holds a non-layout token -- "
+        "end_lineno/end_col_offset are those of the LAST non-layout token INSIDE the matched range. List level: the token "
+        "whose end is used is the last token before the cursor that is not NEWLINE/INDENT/DEDENT/ENDMARKER, independent of "
+        "how many tokens were fetched beyond the cursor. Instance condition (every method with a LOCATIONS alternative has "
+        "m_locations and is not a loop helper) evaluated in Coq on the generator model's module of every explored grammar. "
+        "Tie: K-run under the four configurations on grammars whose actions use LOCATIONS at rule level, in groups, loops, "
+        "after lookaheads and in left-recursive rules (values carry the four numbers); direct comparison with the matched "
+        "span for start-rule actions.",
+   design="6/C15", technique="Coq proof over the IR interpreter (induction over the alternatives of a method; list-level proof "
+        "of the end-token scan) + instance condition evaluated in Coq + value-carrying K-run correspondence",
    note="The degenerate case (only layout tokens matched) is outside the statement, as in the property's quantifier.")
 CLAIMS["C02"] = dict(
    text="Coq (Props/C02.v), for ANY method body, key, mark, state: (1) invariant: the growth loop of memoize_left_rec returns "
